@@ -23,3 +23,12 @@ import FuraxProofs.Sem.LinearList
 #print axioms Furax.C09.valid_leaf_facts
 #print axioms Furax.C09.denotation_self_adjoint
 #print axioms Furax.C09.transpose_denotes_self
+#print axioms Furax.C09.band_row_is_broadcast
+#print axioms Furax.C09.band_row_one_per_row
+#print axioms Furax.C09.band_row_shared
+#print axioms Furax.C09.band_row_unbatched
+#print axioms Furax.C09.denotation_is_banded_product_unbatched
+#print axioms Furax.C09.all_methods_compute_denotation_unbatched
+#print axioms Furax.C09.accepted_configuration_computes_denotation_unbatched
+#print axioms Furax.C09.valid_leaf_facts_unbatched
+#print axioms Furax.C09.unbatched_valid_iff
